@@ -357,4 +357,58 @@ def demoHeapD : Heap :=
 example : (copyObj demoHeapD 3).2 = 5 ∧ ((copyObj demoHeapD 3).1.obj 5).derivs = [(0, 7)] ∧
     ((copyObj demoHeapD 3).1.obj 7).vals = some 6 := by decide
 
+/-! #### aliased `insert_deriv` operands: where independence ends -/
+
+/-- inserting a derivative whose operand is ANY existing well-formed object `d` — the other object of a copy pair, or
+    one of ITS derivatives — does not change anything observable of the other object `y` and keeps both well-formed
+    (`insert_deriv` stores a new shallow clone of the operand) … -/
+theorem insert_aliased_other_unchanged (h : Heap) (x y k d : Nat) (sep : SepT h x y) (wx : WFT h x) (wy : WFT h y)
+    (wd : WF h d) :
+    SameObsT h (insertAlias h x k d) y ∧ WFT (insertAlias h x k d) x ∧ WFT (insertAlias h x k d) y :=
+  insertAlias_other h x y k d sep wx wy wd
+
+/-- … but it re-establishes shared storage (the clone holds the operand's ndarrays), so the hypothesis "operands are
+    not aliases of the other object" of `copy_independent` is NECESSARY: on a concrete heap, `c = o.copy();
+    c.insert_deriv(0, o); c.d_d0[...] = 9` changes the buffer of `o`.  (Sharing introduced explicitly by the caller;
+    not a defect of copy().) -/
+theorem insert_aliased_counterexample :
+    let h1 := (copyObj demoHeapD 3).1
+    let c := (copyObj demoHeapD 3).2
+    let h2 := insertAlias h1 c 5 3
+    let h3 := applyMutT h2 c (.deriv 5 (.write 9))
+    h2.buf 0 = h1.buf 0 ∧ h3.buf 0 ≠ h1.buf 0 := by decide
+
+/-! #### Units objects -/
+
+/-- `copy()` keeps the reference to the SAME Units cell: units are shared by reference between an object and its
+    copy (and with the named constants), by design … -/
+theorem copy_shares_units (h : Heap) (o : Nat) :
+    ((copyObj h o).1.obj (copyObj h o).2).units = (h.obj o).units :=
+  copyObj_units h o
+
+/-- … so `Units.set_name` on that shared Units object — the in-place API of the Units object, not of either Qube —
+    is seen through both (concrete heap; recorded as the boundary of the copy() clause, see DESIGN.d/C07.md §6) -/
+def demoHeapU : Heap :=
+  { demoHeapD with obj := fun o => if o = 3 then ⟨some 1, none, some 2, [], false⟩ else ⟨some 0, none, none, [], false⟩ }
+
+theorem set_name_shows_through_counterexample :
+    let h1 := (copyObj demoHeapU 3).1
+    let c := (copyObj demoHeapU 3).2
+    (renameUnits h1 2 77).unitName c ≠ h1.unitName c ∧ (renameUnits h1 2 77).unitName 3 ≠ h1.unitName 3 := by decide
+
+/-- renaming a Units object changes nothing else: every buffer, ndarray object and Qube object is as before -/
+theorem set_name_frame (h : Heap) (u : Nat) (v : Int) :
+    (renameUnits h u v).buf = h.buf ∧ (renameUnits h u v).arr = h.arr ∧ (renameUnits h u v).obj = h.obj ∧
+    ∀ w, w ≠ u → (renameUnits h u v).uname w = h.uname w :=
+  ⟨rfl, rfl, rfl, fun _ hw => upd_other _ _ _ _ hw⟩
+
+/-- the repaired unit-combination helpers never touch a pre-existing Units cell (named constant, registry entry or
+    registry key set — all `uname` cells): `frame` applies, for every heap and every aliasing of the arguments … -/
+theorem unitsMulNone_safe (named : Bool) : safe false (Summary.unitsMulNone named) = true := by
+  cases named <;> decide
+theorem unitsNew_safe : safe false Summary.unitsNew = true := by decide
+
+/-- … whereas a write into a registry that existed before the call is rejected, like the renaming of an operand -/
+theorem registryWrite_rejected : safe false Summary.registryWrite = false := by decide
+
 end PMV.Heap
